@@ -9,6 +9,10 @@ import (
 
 var alnumOrDashRegexp = regexp.MustCompile("[^a-z_0-9-]+")
 
+// unsafeFileNameRegexp is the same as alnumOrDashRegexp but for values where
+// the case matters, like pointers.
+var unsafeFileNameRegexp = regexp.MustCompile("[^a-zA-Z_0-9-]+")
+
 func GetIndividuals(document *gedcom.Document, placesMap map[string]*place) map[string]*gedcom.IndividualNode {
 	individualMap := map[string]*gedcom.IndividualNode{}
 
